@@ -135,23 +135,20 @@ func (se *subscriptionEntry) prepareResponse(resp *requests.Response) *requests.
 }
 
 func (se *subscriptionEntry) Close() {
-	se.TryLock()
-	isClosed := se.isClosed
-	se.Unlock()
-	if isClosed {
-		return
+	select {
+	case se.closeCh <- struct{}{}:
+	// listener is already done
+	case <-se.queryerCloseCh:
 	}
-	se.closeCh <- struct{}{}
 }
 
 func (se *subscriptionEntry) Listen(conn net.Conn) {
 	defer func() {
-		se.queryerCloseCh <- struct{}{}
 		se.Lock()
 		defer se.Unlock()
+		// closing releases upstream reader and closer as well as late Close calls,
+		// other channels are left open, nobody should ever send on a closed channel
 		close(se.queryerCloseCh)
-		close(se.closeCh)
-		close(se.respCh)
 		se.isClosed = true
 	}()
 
